@@ -27,11 +27,12 @@ C(a, b) == [k |-> "C", brs |-> <<a, b>>]
 N(b, n) == [k |-> "N", body |-> b, n |-> n]
 G(b) == [k |-> "G", body |-> b]
 O(b) == [k |-> "O", body |-> b]
+J(b) == [k |-> "J", body |-> b]        \* a custom_jvp call (another equation Seed does not interpret)
 
 Stmts0 == {S, V(2)}
 Progs0 == {<<a>> : a \in Stmts0} \cup {<<a, b>> : a \in Stmts0, b \in Stmts0}
 Stmts1 == Stmts0 \cup {C(p, q) : p \in Progs0, q \in {<<S>>, <<S, S>>}} \cup {N(p, 2) : p \in Progs0} \cup {G(p) : p \in {<<S>>, <<S, V(2)>>}}
-          \cup (IF WithOpaque THEN {O(<<S>>)} ELSE {})
+          \cup (IF WithOpaque THEN {O(<<S>>), J(<<S>>), O(<<O(<<S>>)>>), O(<<J(<<S>>)>>), J(<<O(<<S, S>>)>>)} ELSE {})
 Progs1 == {<<a>> : a \in Stmts1} \cup {<<a, b>> : a \in Stmts1, b \in Stmts0} \cup {<<a, b>> : a \in Stmts0, b \in Stmts1}
           \cup {<<S, a, S>> : a \in Stmts1}
 Stmts2 == {C(<<N(<<S>>, 2)>>, <<S>>), N(<<C(<<S>>, <<S, S>>)>>, 2), N(<<N(<<S>>, 2), S>>, 2), N(<<V(2), S>>, 2),
@@ -56,7 +57,7 @@ CondPaths(p, path) ==
          : i \in DOMAIN p}
 
 RECURSIVE HasSite(_)
-HasSite(p) == \E i \in DOMAIN p : p[i].k \in {"S", "V"} \/ (p[i].k \in {"G", "O", "N"} /\ HasSite(p[i].body))
+HasSite(p) == \E i \in DOMAIN p : p[i].k \in {"S", "V"} \/ (p[i].k \in {"G", "O", "J", "N"} /\ HasSite(p[i].body))
                                   \/ (p[i].k = "C" /\ (HasSite(p[i].brs[1]) \/ HasSite(p[i].brs[2])))
 
 (* Impl: the interpreter. State threaded through a statement list: [key, dec (remaining decisions), sites, ctr, err] *)
@@ -79,7 +80,7 @@ Run(p, st, path) ==
                                 IF i = 0 THEN st
                                 ELSE LET r == Run(s.body, [It[i - 1] EXCEPT !.key = F(sub, i - 1)], Append(here, ToString(i))) IN r
                           IN [It[s.n] EXCEPT !.key = L(st.key)]
-          [] s.k = "O" ->
+          [] s.k \in {"O", "J"} ->
                (* after the repair (fix: commit): an uninterpreted equation that still contains a sampling site raises
                   the lowering error instead of binding it (which would draw from the hidden global counter)        *)
                IF HasSite(s.body) THEN [st EXCEPT !.err = TRUE] ELSE st
@@ -90,7 +91,7 @@ RECURSIVE RunOld(_, _, _)
 RunOld(p, st, path) ==
   IF p = <<>> THEN st
   ELSE LET s == Head(p) here == Append(path, ToString(Len(p))) IN
-       IF s.k = "O" THEN RunOld(Tail(p), [st EXCEPT !.sites = Append(@, [path |-> here, term |-> Ctr(st.ctr + 1), lane |-> 0]), !.ctr = @ + 1], path)
+       IF s.k \in {"O", "J"} THEN RunOld(Tail(p), [st EXCEPT !.sites = Append(@, [path |-> here, term |-> Ctr(st.ctr + 1), lane |-> 0]), !.ctr = @ + 1], path)
        ELSE IF s.k = "S" THEN RunOld(Tail(p), [st EXCEPT !.key = L(st.key), !.sites = Append(@, [path |-> here, term |-> R(st.key), lane |-> 0])], path)
        ELSE RunOld(Tail(p), st, path)
 
